@@ -111,4 +111,14 @@ PROPS["C09"] = dict(
     level_note="Trusted: Lean kernel, factgen shapes, real timers in the tie. Known finding D10b is recorded in known_findings.json.",
 )
 
+PROPS["C01"] = dict(
+    modules=[],
+    gens=["store-c01"],
+    rule="",
+    level_text="under construction", level_note="under construction",
+)
+
+for _p, _g in (("C02", "store-c02"), ("C03", "store-c03"), ("C06", "store-c06")):
+    PROPS[_p] = dict(modules=[], gens=[_g], rule="", level_text="under construction", level_note="under construction")
+
 NOT_YET = {}
